@@ -17,4 +17,6 @@ def run(ctx):
                        'check decides "does not allocate or reallocate", not "does not free"')
     ctx.add_assumption('NOT covered: the bus backlog bound and the graph processor (Kani cannot finish on BTreeMap/VecDeque/petgraph, '
                        'measured), by_rc, boxed-slice conversions (documented exceptions), sine/hann (libm), arbitrarily long call sequences')
-    run_kani(ctx, 'noalloc', harness=['c07_'], harness_timeout='10m', bounded_note=note)
+    ctx.bounded.append('stock graph nodes Sum / SumBuffers / Pass / BoxedNode(Sum): one process call each on 2 inputs x 2 buffers and 2 outputs '
+                       '(guarded hook Input::verif_new); graph traversal (Processor, GraphNode) is NOT covered')
+    run_kani(ctx, 'noalloc', harness=['c07_'], rustflags='--cfg rustaudio_dasp_verif', harness_timeout='10m', bounded_note=note)
